@@ -6,7 +6,7 @@ from .sweep import apply_op, dec_arg, load_env
 
 
 def rebuild(record):
-    env = load_env()
+    env = load_env("tight_replace" if str(record.get("seed", "")).startswith("trh_") else None)
     p = None
     for nm, pr, _t in env["SEEDS"]:
         if nm == record["seed"]:
